@@ -62,6 +62,11 @@ def _optimize_operator_call_attr(  # pylint: disable=too-many-return-statements
     emitted by the Python compiler and take advantage of any additional performance
     improvements in future versions of Python."""
     if isinstance(fn.value, ast.Name) and fn.value.id == OPERATOR_ALIAS:
+        # Only plain positional calls have an operator form. Anything else (keyword
+        # arguments, the wrong number of arguments) is left to fail at run time.
+        if node.keywords or any(isinstance(arg, ast.Starred) for arg in node.args):
+            return node
+
         binop = {
             "add": ast.Add,
             "and_": ast.BitAnd,
@@ -78,16 +83,18 @@ def _optimize_operator_call_attr(  # pylint: disable=too-many-return-statements
             "xor": ast.BitXor,
         }.get(fn.attr)
         if binop is not None:
+            if len(node.args) != 2:
+                return node
             arg1, arg2 = node.args
-            assert len(node.args) == 2
             return ast.BinOp(arg1, binop(), arg2)
 
         unaryop = {"not_": ast.Not, "inv": ast.Invert, "invert": ast.Invert}.get(
             fn.attr
         )
         if unaryop is not None:
+            if len(node.args) != 1:
+                return node
             arg = node.args[0]
-            assert len(node.args) == 1
             return ast.UnaryOp(unaryop(), arg)
 
         compareop = {
@@ -99,14 +106,16 @@ def _optimize_operator_call_attr(  # pylint: disable=too-many-return-statements
             "ge": ast.GtE,
         }.get(fn.attr)
         if compareop is not None:
+            if len(node.args) != 2:
+                return node
             arg1, arg2 = node.args
-            assert len(node.args) == 2
             return ast.Compare(arg1, [compareop()], [arg2])
 
         isop = {"is_": ast.Is, "is_not": ast.IsNot}.get(fn.attr)
         if isop is not None:
+            if len(node.args) != 2:
+                return node
             arg1, arg2 = node.args
-            assert len(node.args) == 2
             # Python warns about `is` with a literal operand; comparing with `==` instead
             # would change the meaning (1.0 == 1), so such calls are left as they are
             if any(_is_non_singleton_literal(arg) for arg in node.args):
@@ -114,8 +123,9 @@ def _optimize_operator_call_attr(  # pylint: disable=too-many-return-statements
             return ast.Compare(arg1, [isop()], [arg2])
 
         if fn.attr == "contains":
+            if len(node.args) != 2:
+                return node
             arg1, arg2 = node.args
-            assert len(node.args) == 2
             # `b in a` evaluates `b` before `a`, the reverse of `contains(a, b)`, so the
             # operands may only be swapped if evaluating them has no observable order
             if all(isinstance(arg, (ast.Constant, ast.Name)) for arg in node.args):
@@ -123,8 +133,9 @@ def _optimize_operator_call_attr(  # pylint: disable=too-many-return-statements
             return node
 
         if fn.attr == "getitem":
+            if len(node.args) != 2:
+                return node
             target, index = node.args
-            assert len(node.args) == 2
             return ast.Subscript(value=target, slice=index, ctx=ast.Load())
 
     return node
